@@ -14,11 +14,11 @@ BOUNDS = ("The instruction helpers are NOT stubbed here. Unit.get_human_readable
           "Container constructor (liquid+solid+enzyme, with and without capacity), Container.transfer from a source "
           "with liquid and from a solids/enzyme-only source (uL, mg, umol, U), dilute, fill_to, create_solution (pure "
           "and container solvent, one solute and a list of two), create_solution_from, and the baked recipe steps create_container, transfer, "
-          "create_solution, create_solution_from, remove, dilute, fill_to (container), the last two also as the second step after a transfer into the same container. Every displayed number is "
+          "create_solution, create_solution_from, remove, dilute, fill_to (container; a whole 2x3 plate whose wells A1, A2, B3 hold equal amounts: every well is named once with its own amount), the constructor with a substance listed twice, the last two also as the second step after a transfer into the same container. Every displayed number is "
           "carried through the text as a tag and compared with the contents delta: |displayed * prefix - true amount| "
           "<= 0.5*10^-digits * prefix. Quantities symbolic over [1e-9, 1e3] base units so every branch of the "
           "rescaling loops is reached (loop bound 3, checked by the path limit). Lite model + output rounding.")
-OUTSIDE = ("IEEE rounding; the per-amount grouping in a plate fill_to step instruction (a dict keyed by float values); "
+OUTSIDE = ("IEEE rounding; plate fill_to step instructions beyond the 2x3 pattern of text/recipe/fill_to_plate; "
            "HTML/pandas renderings; get_human_readable_unit called with a prefixed unit (not a documented use: the "
            "helper takes the value in the base unit).")
 ASSUMPTIONS = ["formatted numbers are carried through text as tags (float(repr(x)) == x)"]
@@ -36,7 +36,7 @@ def cells(tier, seed):
     for what in ['solid', 'liquid', 'enzyme', 'container']:
         out.append({'id': f"helper/standard_format/{what}", 'fn': 'h_std', 'round': 'lite', 'max_paths': 50,
                     'stub_text': False, 'params': {'what': what}})
-    texts = ['ctor/capacity', 'ctor/nocap', 'transfer/liquid/uL', 'transfer/liquid/mg', 'transfer/solids/mg',
+    texts = ['ctor/capacity', 'ctor/nocap', 'ctor/twice', 'recipe/fill_to_plate', 'transfer/liquid/uL', 'transfer/liquid/mg', 'transfer/solids/mg',
              'transfer/solids/umol', 'transfer/solids/U', 'dilute', 'fill_to/mL', 'fill_to/g', 'create_solution/pure',
              'create_solution/container', 'create_solution/pure2', 'create_solution/container2', 'create_solution_from', 'recipe/create_container', 'recipe/transfer',
              'recipe/solution', 'recipe/solution_from', 'recipe/remove', 'recipe/dilute', 'recipe/fill_to',
@@ -151,7 +151,38 @@ def _check_add_list(h, lib, text, contents, region):
 
 
 def _text(h, t, env, C, Plate, Recipe, lib, water, salt, lip, dmso):
-    if t.startswith('ctor/'):
+    if t == 'ctor/twice':
+        # a substance listed twice in initial_contents (a top-up, or an enzyme given once by activity and once by mass):
+        # the amounts the text states for a substance add up to what the container holds
+        q2 = h.real('q2', Fr(1, 10**6), 10)        # g of NaCl
+        q2b = h.real('q2b', Fr(1, 10**6), 10)      # g of NaCl, again
+        q3 = h.real('q3', Fr(1, 10**3), 10**4)     # U of lipase
+        q3b = h.real('q3b', Fr(1, 10**3), 10**3)   # mg of lipase
+        q1 = h.real('q1', Fr(1, 10**6), 1)         # L of water
+        c = C('c', initial_contents=[(salt, f"{q2} g"), (lip, f"{q3} U"), (water, f"{q1} L"), (salt, f"{q2b} g"),
+                                     (lip, f"{q3b} mg")])
+        items = re.findall(NUM + r' (\S+) of ([^,.]+?)(?:,| to |\.$|$)', c.instructions)
+        by_name = {s_.name: (s_, a_) for s_, a_ in c.contents.items()}
+        h.require('text:every-substance-listed', h.true(set(n for _, _, n in items) == set(by_name)), 'ctor-twice',
+                  detail=c.instructions)
+        for name, (s_, a_) in by_name.items():
+            mine = [(tok, unit) for tok, unit, n in items if n == name]
+            if not mine:
+                continue
+            base = {'NaCl': 'g', 'water': 'L', 'lipase': 'U'}[name]
+            shown, tol = 0, 0
+            for tok, unit in mine:
+                prefix, ubase = split_unit(unit)
+                digits = h.env.config.precisions.get(unit, h.env.config.precisions['default'])
+                v = num(h, tok) * PREFIX[prefix]
+                half = Fr(1, 2 * 10**digits) * PREFIX[prefix]
+                if ubase != base:                   # (an enzyme amount shown by mass: convert by the lot's activity)
+                    k = lib.amount(s_, Fr(1), base) / lib.amount(s_, Fr(1), ubase)
+                    v, half = v * k, half * k
+                shown, tol = shown + v, tol + half
+            h.require('text:listed-amounts-add-up', h.eq(shown, lib.amount(s_, a_, base), tol + h.rs(h.ulp * 100) + h.rs(Fr(1, 10**12))),
+                      'ctor-twice', detail=f"the amounts of {name} stated in '{c.instructions}' vs what the container holds")
+    elif t.startswith('ctor/'):
         q1 = h.real('q1', Fr(1, 10**9), 1)         # L of water
         q2 = h.real('q2', Fr(1, 10**9), 10)        # g of NaCl
         q3 = h.real('q3', Fr(1, 10**6), 10**4)     # U of lipase
@@ -341,6 +372,40 @@ def _text(h, t, env, C, Plate, Recipe, lib, water, salt, lip, dmso):
                 added = lib.amount(water, res['B'].contents[water] - B1.contents[water], 'L')
                 displayed_ok(h, 'text:step-amount', num(h, m.group(2)), m.group(3), added, region='after-earlier-step',
                              detail=rec.steps[1].instructions + ' (the container already held solvent from an earlier step)')
+        elif kind == 'fill_to_plate':
+            # a whole plate filled up: wells A1, A2 and B3 hold the same amount (they form one group of the step's text:
+            # a horizontal run plus a well of the next row), the other three wells hold different amounts
+            P = Plate('P', '10 mL', rows=2, columns=3)
+            same = h.real('w.same', 1, 100)
+            others = {(0, 2): h.real('w.A3', 1, 100), (1, 0): h.real('w.B1', 1, 100), (1, 1): h.real('w.B2', 1, 100)}
+            for rc in [(r_, c_) for r_ in range(2) for c_ in range(3)]:
+                P.wells[rc].contents[water] = (others.get(rc, same)) * (lib.storage_from(water, Fr(1), 'uL'))
+                set_volume(h, lib, P.wells[rc])
+            T = h.real('T', 500, 900)
+            rec.uses(P)
+            rec.fill_to(P, water, f"{T} uL")
+            res = rec.bake()
+            text = rec.steps[0].instructions
+            m = re.match(r"^Fill 'P' with 'water' up to " + NUM + r" uL by adding: (.*)\.$", text)
+            h.require('text:step', h.true(m is not None), detail=text)
+            if m:
+                stated = {}
+                twice = []
+                for tok, unit, addr in re.findall(NUM + r' (\S+) to \[([^\]]*)\]', m.group(2)):
+                    for a_ in addr.split(', '):
+                        ends = a_.split(':')
+                        (r0, c0), (r1, c1) = [('AB'.index(e[0]), int(e[1:]) - 1) for e in (ends[0], ends[-1])]
+                        for rr in range(r0, r1 + 1):
+                            for cc in range(c0, c1 + 1):
+                                if (rr, cc) in stated:
+                                    twice.append((rr, cc))
+                                stated[(rr, cc)] = (tok, unit)
+                h.require('text:plate-fill-each-well-once', h.true(not twice and len(stated) == 6), 'plate-fill',
+                          detail=f"wells named twice {twice}, wells named {sorted(stated)} in: {text}")
+                for rc, (tok, unit) in stated.items():
+                    added = lib.amount(water, res['P'].wells[rc].contents[water] - P.wells[rc].contents[water], 'L')
+                    displayed_ok(h, 'text:plate-fill-amount', num(h, tok), unit, added, 'plate-fill',
+                                 detail=f"well {'AB'[rc[0]]}{rc[1] + 1} in: {text}")
         elif kind == 'fill_to':
             rec.uses(A)
             T = h.real('T', Fr(1, 10**3), 10**7)
